@@ -16,6 +16,7 @@ const (
 	scMapVal
 	scMapHas
 	scMapLen
+	scGhost
 )
 
 type sComp struct {
@@ -23,6 +24,7 @@ type sComp struct {
 	Kind int
 	T    types.Type
 	M    *types.Map
+	Sort string
 }
 
 func (g *Gen) materialize(c sComp) {
@@ -34,6 +36,8 @@ func (g *Gen) materialize(c sComp) {
 		g.comp(c.Name, g.st.sortOf(c.T))
 	case scElems:
 		g.comp(c.Name, "(Array Int "+g.st.sortOf(c.T)+")")
+	case scGhost:
+		g.comp(c.Name, c.Sort)
 	default:
 		g.mapComps(c.M)
 	}
@@ -66,7 +70,7 @@ func compsOfStore(t types.Type, scalarName string, out compSet) {
 	case *types.Struct:
 		for i := 0; i < u.NumFields(); i++ {
 			f := u.Field(i)
-			compsOfStore(f.Type(), fieldComp(t, f.Name()), out)
+			compsOfStore(f.Type(), fieldComp(t, fieldName(u, i)), out)
 		}
 	case *types.Array:
 		if isStruct(u.Elem()) {
@@ -94,8 +98,8 @@ func addrComps(addr ssa.Value, out compSet) {
 	switch a := addr.(type) {
 	case *ssa.FieldAddr:
 		st := a.X.Type().Underlying().(*types.Pointer).Elem()
-		f := st.Underlying().(*types.Struct).Field(a.Field)
-		compsOfStore(f.Type(), fieldComp(st, f.Name()), out)
+		su := st.Underlying().(*types.Struct)
+		compsOfStore(su.Field(a.Field).Type(), fieldComp(st, fieldName(su, a.Field)), out)
 	case *ssa.IndexAddr:
 		if isStruct(elem) {
 			compsOfStore(elem, "", out)
@@ -206,6 +210,20 @@ func (e *Engine) computeModsets() {
 					cc = &x.Call
 				}
 				if cc != nil {
+					if ftc := e.funcTypeContract(cc); ftc != nil && ftc.HasMod {
+						env := map[string]types.Type{}
+						if len(ftc.Params) > 0 {
+							env[ftc.Params[0]] = cc.Value.Type()
+						}
+						ms.addAll(modCompsEnv(ftc, env))
+						continue
+					}
+					if cc.IsInvoke() {
+						if ic := e.ifaceContract(cc); ic != nil && ic.HasMod {
+							ms.addAll(e.contractModCompsSig(ic, cc.Signature(), true))
+							continue
+						}
+					}
 					e.callees[fn] = append(e.callees[fn], e.possibleCallees(cc)...)
 					e.externArgWrites(cc, ms)
 				}
@@ -365,6 +383,14 @@ func (e *Engine) callMods(cc *ssa.CallCommon) compSet {
 			ms.addAll(e.contractModCompsSig(con, cc.Signature(), true))
 			return ms
 		}
+	}
+	if ftc := e.funcTypeContract(cc); ftc != nil && ftc.HasMod {
+		env := map[string]types.Type{}
+		if len(ftc.Params) > 0 {
+			env[ftc.Params[0]] = cc.Value.Type()
+		}
+		ms.addAll(modCompsEnv(ftc, env))
+		return ms
 	}
 	for _, f := range e.possibleCallees(cc) {
 		if con := e.contractFor(f); con != nil && con.HasMod {
